@@ -416,6 +416,7 @@ func (q *seq) encode(c encCase) int {
 	}
 	r.Extra("oracle_cases", q.bump())
 	r.Nontrivial(fmt.Sprintf("%s %dx%d s%d %s", fname, c.w, c.h, c.stride, c.pix.kind))
+	poolAdd(r.Rand, all, c.line())
 	// tie Spec.lean to the reference walker on this output
 	if len(all) <= 1500 {
 		q.specdecode(all, hlib.Hex(all))
@@ -891,16 +892,8 @@ func crafted(r *hlib.Run) {
 		}
 		r.Count("crafted:" + kind)
 		q.specdecode(stream, hlib.Hex(stream))
-		// sanity of the reference walker itself against image/png on streams it accepts
-		if im, _ := refDecode(stream); im != nil {
-			m, err := png.Decode(bytes.NewReader(stream))
-			if err != nil || m.Bounds().Dx() != im.w || m.Bounds().Dy() != im.h {
-				r.Note(fmt.Sprintf("reference walker accepts a stream image/png rejects (%v): %s", err, hlib.Hex(stream)))
-				r.Count("ref-vs-image/png:disagree")
-			} else {
-				r.Count("ref-vs-image/png:agree")
-			}
-		}
+		// the specification against image/png on this stream (all four colour types, incl. gray+alpha)
+		q.specStd(stream, fmt.Sprintf("crafted %dx%d depth %d ct %d", w, h, depth, ct), "crafted-"+kind)
 	}
 }
 
@@ -953,6 +946,7 @@ func main() {
 		r.Count(fmt.Sprintf("sequence-length:%d", q.idx))
 	}
 	crafted(r)
+	specVsStd(r)
 
 	// coverage of the flush-slack residues (evidence of the input distribution)
 	missing := []string{}
